@@ -296,11 +296,11 @@ CHECKS['C13'] = dict(
     level_note='Trusted: model, generator.',
 )
 
-MH = [1 << i for i in range(9)]
+MH = [1 << i for i in range(10)]
 CHECKS['C14'] = dict(
     title='Heterogeneous classes route by prototype and never confuse stored types',
     level='exploration',
-    rule='9 configurations (HeterCallbackList, HeterEventDispatcher exclude-/include-event, HeterEventQueue exclude-/include-event with int and std::string keys; 7 prototype kinds with non-trivial payloads of '
+    rule='10 configurations (HeterCallbackList, HeterEventDispatcher exclude-/include-event incl. one without a getEvent policy, HeterEventQueue exclude-/include-event with int and std::string keys; events also passed as another type that converts to the key type (const char *, long); 7 prototype kinds with non-trivial payloads of '
          'different sizes in 3 listing orders; single and multi threading) x seeded histories of listener management, invocation/dispatch/enqueue with 16 argument shapes (lvalues, temporaries, convertible '
          'types), process/processOne/processIf with 11 predicates (one per prototype, several callable with 2,3 or all prototypes)/clearEvents, long enough to recycle queue slots across payload kinds; the '
          'expected prototype is computed by an independent std::is_invocable fold; every listener and predicate call is checked online; a processIf call must show its predicate every event that was queued when it began, '
@@ -414,6 +414,9 @@ def _c20_jobs():
         jobs.append(J(drv, 'm-gcc-11-O0', 'c20', 16, 400, defs=['-DVF_CFG_MASK=0x%x' % mask], opts={'noprefill': '1'}, wrapper=vg, seed_offset=7, shards=8, shards_thorough=16, label='memcheck'))
     # prior memory for AnyId keys (default-initialised ids in pre-filled storage)
     jobs.append(J('drv_anyid', 'asan17', 'mixed', 2400, 60000, seed_offset=9, shards=8, shards_thorough=16, label='anyid'))
+    # prior memory through a key built from a convertible event argument (const char * -> std::string): heterogeneous dispatcher / queue with std::string keys
+    for v, so in (('asan17', 10), ('clang-asan17', 11)):
+        jobs.append(J('drv_heter', v, 'all', 3000, 60000, defs=['-DVF_CFG_MASK=0x220'], opts={'tag': 'c20'}, seed_offset=so, shards=4, shards_thorough=8, label='heter-keys'))
     return jobs
 
 
@@ -449,7 +452,7 @@ CHECKS['C20'] = dict(
          'that differs only in policies - lists: {std::mutex+std::function, SingleThreading, SpinLock, custom callback+Single, custom callback+SpinLock}; dispatchers: {default unordered_map, SingleThreading, '
          'std::map, user map(std::greater)+Single, IncludeEvent+SpinLock, custom callback}; queues (argument type with alignof 16: misplaced storage works at -O0 and faults at -O2): {default, Single, SpinLock, std::map+custom callback, IncludeEvent+Single} - each member checked against the model '
          'in-process and the observable traces (operations, results, calls with arguments) compared by hash; a second dispatcher family has a by-value std::string key in the prototype (the shape on which unspecified argument evaluation order shows); build matrix: g++ 12 / clang++ 14 x -std=c++11/14/17/20 x -O0/-O2 (4 builds quick, 16 thorough), same '
-         'seeds, per-driver trace accumulators compared across builds; pool storage pre-filled with 0x00/0xFF/0xA5/0x5C/random before construction, plus a memcheck run with the storage left undefined; '
+         'seeds, per-driver trace accumulators compared across builds; heterogeneous dispatcher and queue with std::string keys whose events are also passed as const char * (the key object the library builds must outlive its use: ASan), g++ and clang++; pool storage pre-filled with 0x00/0xFF/0xA5/0x5C/random before construction, plus a memcheck run with the storage left undefined; '
          'evaluations = programs x family members x builds; distinct = trace hash',
     jobs=_c20_jobs(),
     post=_c20_post,
